@@ -35,7 +35,7 @@ DEV_REFUTED_BY = {"MuIgnoresEs": "KKT", "SpreadOverAll": "SumIsP", "AscendingSor
                   "NoUnsort": "PermutationEquivariant", "StopEarly": "NonNeg", "EsDroppedInLoop": "MatchesOptimum",
                   "AbsGainFloor": "ScaleLaws"}
 INVARIANTS = ["TypeOK", "NonNeg", "SumIsP", "KKT", "MatchesOptimum", "WaterLevelUnique", "Optimal",
-              "ExchangeOptimal", "PermutationEquivariant", "RunAgrees", "ScaleLaws", "ScaleLawsOptimum", "KeepsOne", "PsNonNeg", "DropSound",
+              "ExchangeOptimal", "PermutationEquivariant", "RunAgrees", "ScaleLaws", "ScaleLawsOptimum", "DeadChannelLaw", "KeepsOne", "PsNonNeg", "DropSound",
               "StopSound"]
 ACTIONS = ["Pick", "Sort", "Level", "DropWorst", "Spread", "Unsort", "Mu"]
 
@@ -52,7 +52,8 @@ def rset(pairs):
 
 def model(gains, first, lens, powers, noises, energies, dev=(), emit=True, invariants=None, **opt):
     o = dict(AllTieBreaks=True, DropOnTie=False, PermAll=True, GridN=4, ExN=4,
-             OptAMax=[(160, 1), (160, 1)], ExAMax=(160, 1), Scales={(3, 1), (1, 2)}, GainFloor=(1, 4))
+             OptAMax=[(160, 1), (160, 1)], ExAMax=(160, 1), Scales={(3, 1), (1, 2)}, GainFloor=(1, 4),
+             DeadGains={(1, 4096)}, DeadMaxLen=2)
     o.update(opt)
     optrec = tlc.tla(o)
     defs = {"Gains": rset(gains), "FirstGains": rset(first), "Lens": tlc.tla(set(lens)),
@@ -215,6 +216,42 @@ def run_case(c):
             bad = attempt(label, *args, out_scale=oscale)
             if bad:
                 return "violation", bad[0], calls
+    # 4. a channel whose bottom is not below the water level is irrelevant (DeadChannelLaw): append / prepend
+    #    channels 20 and 300 orders of magnitude weaker than the weakest one
+    for k in (1e-20, 1e-300):
+        dead = float(gf.min()) * k
+        if not n0 / (es * dead) >= wmu:      # premise of the law, on emitted numbers
+            continue
+        for label, arr, w in ((f"channel with gain min(g) x {k:g} appended", np.append(gf, dead), want + [0.0]),
+                              (f"channel with gain min(g) x {k:g} prepended", np.insert(gf, 0, dead), [0.0] + want)):
+            calls += 1
+            try:
+                res = call(arr, P, n0, es)
+            except Exception as ex:
+                return "violation", f"{label}: doWF raised {type(ex).__name__}: {ex}", calls
+            bad = judge_result(res, n + 1, w, wmu)
+            if bad:
+                return "violation", f"{label}: " + bad[0], calls
+    # 5. (rel) gains spread over many orders of magnitude INSIDE the vector, low to extreme total power.  No exact
+    #    value exists in 32-bit arithmetic; the relations of the property statement are evaluated numerically
+    #    from first principles on what doWF returned: p >= 0, SUM p = P, p_i = max(0, mu - N0/(Es g_i)).
+    for s in (1e-13, 1e13):
+        gs_ = gf * s ** np.arange(n)
+        for pk in (1.0, 1e15, 1e30):
+            calls += 1
+            label = f"(rel) gains g_i x {s:g}^i, P x {pk:g}"
+            try:
+                pw, mu = call(gs_.copy(), P * pk, n0, es)
+            except Exception as ex:
+                return "violation", f"{label}: doWF raised {type(ex).__name__}: {ex}", calls
+            pw = np.asarray(pw, dtype=float)
+            mu = float(mu)
+            unit = max(abs(mu), P * pk)
+            kkt = np.maximum(0.0, mu - n0 / (es * gs_))
+            if pw.shape != (n,) or not np.all(np.isfinite(pw)) or not np.isfinite(mu) or pw.min() < -TOL * unit \
+                    or abs(pw.sum() - P * pk) > TOL * P * pk or np.abs(pw - kkt).max() > TOL * unit:
+                return "violation", (f"{label}: returned powers {pw.tolist()} and level {mu!r} do not satisfy "
+                                     f"p >= 0, SUM p = {P * pk!r}, p_i = max(0, mu - N0/(Es g_i)) = {kkt.tolist()}"), calls
     return "ok", "", calls
 
 
@@ -258,7 +295,7 @@ def model_devs(ctx, ex):
     jobs[-1]["model"].update(invariants=INVARIANTS, Scales={(1, 8)}, GainFloor=(1, 4))
     tie = {"model": dict(gains=G_STD, first=G_STD, lens=[1, 2, 3], powers=[(1, 1)], noises=[(1, 1)],
                          energies=[(1, 1), (2, 1)], DropOnTie=True)}
-    cov = {"model": dict(SMALL, emit=False), "coverage": True}       # intended instance with per-action coverage
+    cov = {"model": dict(SMALL, emit=False, DeadGains={(1, 64), (1, 4096)}, DeadMaxLen=3), "coverage": True}       # intended instance with per-action coverage
     res = list(ex.map(run_model, jobs + [tie, cov]))
     ctx.account(res.pop(), MODULE, "intended instance, small domain, coverage")
     for j, r in zip(jobs, res[:-1]):
